@@ -1,6 +1,7 @@
 //! Simulator kernel: PRNG, plans, per-run statistics, findings, the `Check` interface, worker
 //! protocol, orchestrator, replay, minimiser, evidence writer.
 
+pub mod alloc;
 pub mod evidence;
 pub mod known;
 pub mod orchestrator;
@@ -224,6 +225,10 @@ pub trait Check: Sync {
     fn announce(&self) -> bool {
         false
     }
+    /// Arm the counting allocator's size policy (C15)?
+    fn arm_allocator(&self) -> bool {
+        false
+    }
     /// Per-case wall-clock watchdog in seconds (only real-time input; cannot alter a terminating run).
     fn watchdog_s(&self) -> u64 {
         120
@@ -259,4 +264,24 @@ impl PanicInfo {
         parts.reverse();
         parts[0].to_string()
     }
+}
+
+/// Runs `f` on a fresh OS thread and returns its result (panics are propagated). A fresh thread
+/// starts with pristine thread-locals, in particular std's per-thread RandomState key counter, so
+/// hash-map iteration order inside `f` does not depend on what ran before on the calling thread.
+pub fn fresh_thread<R: Send>(f: impl FnOnce() -> R + Send) -> R {
+    std::thread::scope(|s| {
+        let h = std::thread::Builder::new()
+            .stack_size(16 << 20)
+            .spawn_scoped(s, move || {
+                // inherit the "quiet panics" convention of the worker
+                worker::install_panic_hook();
+                f()
+            })
+            .expect("spawn");
+        match h.join() {
+            Ok(r) => r,
+            Err(p) => std::panic::resume_unwind(p),
+        }
+    })
 }
